@@ -176,6 +176,12 @@ class World:
                 if P not in ids:
                     self.mod[P] = new.output      # (a project loaded without its output: the Output object it carries)
                 self.proj[P] = new
+            elif act == "remove_module":
+                P, m = args
+                lst = self.proj[P].modules
+                for i, x in enumerate(lst):
+                    if x is self.mod[m]:
+                        lst[i] = None
             elif act == "load_without_output":
                 # the project written with position 0 emptied (project.modules[0] = None) and read back
                 P = args[0]
@@ -309,8 +315,16 @@ def random_history(rnd, tid, nm, np_, length, extra_output=False):
         if act in ("saveload", "load_without_output") and extra_output and w.mod[nm] in w.proj[args[0]].modules:
             # a project holding a second Output instance cannot be written and read back (no STYP for Output): not part of C14
             act, args = "attach_none", [args[0]]
-        out, ret = w.do(act, args, rnd)
-        ev.append({"op": act, "args": args, "outcome": out, "ret": ret, "post": w.project()})
+        seq = [(act, args)]
+        if act == "attach_none" and 0.415 <= r < 0.43 and not extra_output:
+            # a position cleared by hand (project.modules[i] = None), re-used by another module, then the removed module attached again
+            inside = [m for m in range(3, nm + 1) if w.mod[m].parent is w.proj[P] and any(x is w.mod[m] for x in w.proj[P].modules)]
+            if inside:
+                m = inside[len(ev) % len(inside)]
+                seq = [("remove_module", [P, m])] + ([("attach", [P, free[0]])] if free else []) + [("attach", [P, m])]
+        for act, args in seq:
+            out, ret = w.do(act, args, rnd)
+            ev.append({"op": act, "args": args, "outcome": out, "ret": ret, "post": w.project()})
     return {"id": tid, "nm": nm, "np": np_, "events": ev}
 
 
